@@ -250,6 +250,10 @@ class StubSim(mosaik_api_v3.Simulator):
             run.rec("fault", kind, self.sid, func, n, others)
             run.fault_state["fired"] = run.fault_state.get("fired", 0) + 1
             node.kill()
+        elif kind == "reset_in_handler":
+            run.rec("fault", kind, self.sid, func, n, others)
+            run.fault_state["fired"] = run.fault_state.get("fired", 0) + 1
+            node.kill(reset=True)
         elif kind == "kill_after_reply":
             run.fault_state.setdefault("on_node_write", {})[self.sid] = "kill"
         elif kind == "torn_reply":
